@@ -211,6 +211,21 @@ def ret_classes(body, start_bb, blocked_edges=lambda e: False):
     ok | err | pass | other | unset. Also follows into `resume` as class 'unwind'."""
     out = set()
     seen = set()
+    # locals whose value reaches the return place by plain moves (`_0 = move d; d = move r`): in a
+    # body rewritten by rules/inline.py the result of a copied-in helper travels that way, and what
+    # it *is* on a path was decided where the first of them was assigned
+    A = {0}
+    if body.rec.get("transformed"):
+        grew = True
+        while grew:
+            grew = False
+            for blk0 in body.blocks:
+                for st in blk0["stmts"]:
+                    if st["k"] == "assign" and st["pl"]["l"] in A and not st["pl"]["p"] and st["rv"]["k"] == "use" and st["rv"]["op"].get("k") in ("move", "copy") and not st["rv"]["op"]["pl"]["p"]:
+                        x = st["rv"]["op"]["pl"]["l"]
+                        if x not in A and not (1 <= x <= body.arg_count):
+                            A.add(x)
+                            grew = True
     dq = deque([(start_bb, None)])
     while dq:
         bb, last = dq.popleft()
@@ -220,12 +235,15 @@ def ret_classes(body, start_bb, blocked_edges=lambda e: False):
         blk = body.blocks[bb]
         cur = last
         for si, st in enumerate(blk["stmts"]):
-            if st["k"] == "assign" and st["pl"]["l"] == 0 and not st["pl"]["p"]:
+            if st["k"] == "assign" and st["pl"]["l"] in A and not st["pl"]["p"]:
+                rv = st["rv"]
+                if len(A) > 1 and rv["k"] == "use" and rv["op"].get("k") in ("move", "copy") and not rv["op"]["pl"]["p"] and rv["op"]["pl"]["l"] in A:
+                    continue  # a plain hand-over inside the chain
                 cur = (bb, si)
         t = blk["term"]
         if t is None:
             continue
-        if t["k"] == "call" and t["dest"]["l"] == 0 and not t["dest"]["p"]:
+        if t["k"] == "call" and t["dest"]["l"] in A and not t["dest"]["p"]:
             cur_after_call = (bb, "T")
         else:
             cur_after_call = cur
